@@ -187,6 +187,11 @@ func gatesWrap(s *Summary, c *gateCase) {
 	for _, n := range c.Ws {
 		ws = append(ws, mk(n))
 	}
+	// the caller's list is used twice (the same wrappers applied to another router first): it must not be modified
+	other := rux.New()
+	other.GET("/w", nopHandler)
+	other.WrapHTTPHandlers(ws...).ServeHTTP(httptest.NewRecorder(), httptest.NewRequest("GET", "http://example.com/w", nil))
+	log = log[:0]
 	h := r.WrapHTTPHandlers(ws...)
 	h.ServeHTTP(httptest.NewRecorder(), httptest.NewRequest("GET", "http://example.com/w", nil))
 	s.Compared++
